@@ -450,11 +450,19 @@ Definition canonical (r : resource) : str :=
 
 Definition is_dom (r : resource) : bool := match r with RDom _ _ _ => true | _ => false end.
 
-(* UrlDispatcher._get_resource_index_key *)
+(* UrlDispatcher._get_resource_index_key: cut at the first brace / last slash, strip trailing slashes;
+   a PlainResource is keyed by that text as written, every other resource by its path_safe form *)
+Definition cut_key (c : str) : str :=
+  rstrip ik_sep (if memN ik_brace c then rpart ik_sep (before_char ik_brace c) else c).
 Definition index_key_of (c : str) : str :=
-  let k := if memN ik_brace c then rpart ik_sep (before_char ik_brace c) else c in
-  match path_safe_dec (rstrip ik_sep k) with [] => [ik_sep] | k' => k' end.
-Definition index_key (r : resource) : str := index_key_of (canonical r).
+  match path_safe_dec (cut_key c) with [] => [ik_sep] | k' => k' end.
+Definition index_key_plain (c : str) : str :=
+  match cut_key c with [] => [ik_sep] | k' => k' end.
+Definition index_key (r : resource) : str :=
+  match r with
+  | RPlain p _ => index_key_plain p
+  | _ => index_key_of (canonical r)
+  end.
 
 Fixpoint idx_get (k : str) (ix : index) : option (list nat) :=
   match ix with
